@@ -841,8 +841,8 @@ func genJoe(c *Ctx) {
 
 func (g *jgen) tplResume(maxSubs int) (*jScenario, string, string) {
 	s := g.base()
-	s.kind = uint64(1 + g.r.Intn(2))
-	capEff := 4 // ValidReplayer: the initial ring
+	s.kind = uint64(1 + g.r.Intn(3)) // 1 FiniteReplayer(cap), 2 ValidReplayer, 3 ValidReplayer whose first cap accepted events expire
+	capEff := 4                      // ValidReplayer: the initial ring
 	if s.kind == 1 {
 		s.cap = uint64(2 + g.r.Intn(4))
 		capEff = int(s.cap)
@@ -922,6 +922,18 @@ func (g *jgen) tplResume(maxSubs int) (*jScenario, string, string) {
 	buffered := ids
 	if s.kind == 1 && len(ids) > capEff {
 		buffered = ids[len(ids)-capEff:]
+	}
+	if s.kind == 3 {
+		// two clock jumps: +600 s right after the m-th accepted Put, +500 s right after the (m+k)-th (TTL 1000 s): from
+		// then on exactly the first m events are expired; the next Put collects them (the ring's head moves, no shrink while
+		// k > len/4), and the following Puts may wrap a ring that is not full.  cap encodes m*100+k.
+		m, k := 1+g.r.Intn(2), 2+g.r.Intn(2)
+		if len(ids) < m+k+1 {
+			s.kind = 2
+		} else {
+			s.cap = uint64(m*100 + k)
+			buffered = ids[m:]
+		}
 	}
 	// bystanders registered from the start, then the resuming subscriber
 	for i, n := 0, g.r.Intn(maxSubs-1); i < n; i++ {
@@ -1062,7 +1074,7 @@ func (g *jgen) tplResume(maxSubs int) (*jScenario, string, string) {
 	if auto {
 		mode = "auto"
 	}
-	g.c.Count("replay:replayer:" + []string{"", "finite", "valid"}[s.kind] + "/" + mode)
+	g.c.Count("replay:replayer:" + []string{"", "finite", "valid", "valid-expiring"}[s.kind] + "/" + mode)
 	if !auto && present == "newest" && len(ids) > 0 && (s.kind == 1 && len(ids)%capEff == 0 || s.kind == 2 && (len(ids) == 4 || len(ids) == 8 || len(ids) == 16)) {
 		g.c.Count("replay:manual-newest-in-last-ring-slot")
 	}
